@@ -10,19 +10,21 @@ type SlotOwner struct {
 }
 
 func KeyToSlot(key string) uint16 {
-	hashtag := ""
-	for i, s := range key {
-		if s == '{' {
-			for k := i; k < len(key); k++ {
-				if key[k] == '}' {
-					hashtag = key[i+1 : k]
-					break
+	// redis cluster keyHashSlot : hash what is between the first '{' and the first '}' after it,
+	// if there is at least one character in between, otherwise hash the whole key
+	for s := 0; s < len(key); s++ {
+		if key[s] != '{' {
+			continue
+		}
+		for e := s + 1; e < len(key); e++ {
+			if key[e] == '}' {
+				if e > s+1 {
+					return digest.Crc16(key[s+1:e]) & 0x3fff
 				}
+				break
 			}
 		}
-	}
-	if len(hashtag) > 0 {
-		return digest.Crc16(hashtag) & 0x3fff
+		break
 	}
 	return digest.Crc16(key) & 0x3fff
 }
